@@ -184,13 +184,16 @@ def mean_checks(ctx, tier, rng):
         app = SSF(BaseHandler(ds))
         rank = len(info["shape"])
         depth = rng.randint(1, min(3, rank))
-        axes, r = [], rank
+        axes, sent, r = [], [], rank
         for _ in range(depth):
-            axes.append(rng.randrange(r))
+            k = rng.randrange(r)
+            axes.append(k)
+            # round 7: numpy reads a negative axis from the last one (-1 = the last axis); the request spells 30 % of the axes so
+            sent.append(k - r if rng.random() < 0.3 else k)
             r -= 1
         target = rng.choice(["a", "g", "g.v"])
         call = target
-        for k in axes:
+        for k in sent:
             call = "mean(%s,%d)" % (call, k) if not (k == 0 and rng.random() < 0.15) else "mean(%s)" % call
         # an ordinary projection beside the call, with and without a hyperslab of its own (it must be served as without
         # the call: the middleware hands the ordinary items to the handler)
@@ -198,7 +201,7 @@ def mean_checks(ctx, tier, rng):
         beside = rng.choice(["", wsel + ",", wsel + ","]) if target != "a" else rng.choice(["", wsel + ","])
         q = beside + call + rng.choice(["", "", "," + wsel] if not beside else [""])
         res = G.run_request(app, "/d.dods", q)
-        case = {"kind": "mean", "info": info, "target": target, "axes": axes, "query": q}
+        case = {"kind": "mean", "info": info, "target": target, "axes": axes, "sent": sent, "query": q}
         # expectation from the source: exact integer sums, common denominator = product of the removed axis lengths
         src = np.array(info["data"], dtype="i8").reshape(info["shape"])
         shp, dims, den = list(info["shape"]), list(info["dims"] if target != "a" else info["a_dims"]), 1
@@ -270,7 +273,7 @@ def mean_checks(ctx, tier, rng):
                 ctx.oracle_fail("mean on a grid: the remaining maps do not carry the source maps' values", case, got_maps[:20],
                                 [x for _, mv in maps for x in mv][:20], size=len(q) + sum(info["shape"]))
                 continue
-        ctx.count(("mean", repr(info), q), True, tag="mean|%s|rank%d|depth%d%s" % (target, rank, depth, ("|beside-sliced" if "[" in wsel else "|beside") if has_w else ""),
+        ctx.count(("mean", repr(info), q), True, tag="mean|%s|rank%d|depth%d%s%s" % (target, rank, depth, "|negative-axis" if any(k < 0 for k in sent) else "", ("|beside-sliced" if "[" in wsel else "|beside") if has_w else ""),
                   sample={"query": q, "shape": info["shape"]})
         # correspondence with the model: sums over the common denominator
         sums = [int(round(Fraction(float(g_)) * den)) for g_ in got]
@@ -279,17 +282,22 @@ def mean_checks(ctx, tier, rng):
             line = "ssf-meangrid (%s) (%s) (%s) (%s) (%s)" % (
                 " ".join(map(str, info["shape"])), " ".join(G.hx(d) for d in info["dims"]), " ".join(map(str, info["data"])),
                 " ".join("(%s (%s))" % (G.hx(d), " ".join(map(str, mv))) for d, mv in zip(info["dims"], info["maps"])),
-                " ".join(map(str, axes)))
+                " ".join(map(str, sent)))
             impl = "(((%s) (%s) (%s) %d) (%s))" % (" ".join(map(str, ent[0][2][0][2])), " ".join(G.hx(d) for d in (got_dims or [])),
                                                    " ".join(map(str, sums)), den,
                                                    " ".join("(%s (%s))" % (G.hx(mm[0].split(".")[1]), " ".join(str(int(x)) for x in mv_))
                                                             for mm, mv_ in zip(ent[0][2][1:], split_maps(got_maps, ent[0][2][1:]))))
         else:
             line = "ssf-mean (%s) (%s) (%s) (%s)" % (" ".join(map(str, info["shape"])), " ".join(G.hx(d) for d in mdims),
-                                                     " ".join(map(str, info["data"])), " ".join(map(str, axes)))
+                                                     " ".join(map(str, info["data"])), " ".join(map(str, sent)))
             impl = "((%s) (%s) (%s) %d)" % (" ".join(map(str, ent[0][3])), " ".join(G.hx(d) for d in (got_dims or [])),
                                             " ".join(map(str, sums)), den)
         cases.append((line, impl, case))
+        if target != "g":
+            # round 7: the call TEXT through the model's eval_function (parseCall + evalMean), not the list of axes
+            cases.append(("ssf-meaneval %s %s (%s) (%s) (%s)" % (G.hx(call), G.hx(target), " ".join(map(str, info["shape"])),
+                                                                " ".join(G.hx(d) for d in mdims), " ".join(map(str, info["data"]))),
+                          impl, case))
         # (d) the same call through the client's function proxy
         if rng.random() < (0.5 if tier == "quick" else 0.3) and target in ("a", "g"):
             try:
